@@ -217,6 +217,95 @@ theorem retry_delay_total (n : Option Int) : (∃ d, retryDelay n = some d) ∨ 
 
 theorem retry_delay_integral_float : retryDelay (some 8) = some 1 ∧ retryDelay (some 20) = none := by decide
 
+/-! ## `refSwitch`: any list of cases, any state of each case's function (round 6)
+
+`_load_logic_switch` keeps the loaded logics in a dict keyed by the `case` value (`dictSet`): a later entry with the
+same `case` shadows an earlier one, whose outcome is then never part of the readiness check.  The `dynamic_input_keys`
+are therefore read inside the loop, off the logics that loaded (`.fn`), never off an error outcome. -/
+
+/-- a loaded function is what the cache holds as ready under that reference -/
+theorem loadLogic_fn {env : Env} {r : Ref} {w : Bool} {ks : List String}
+    (h : (loadLogic env r).2 = .fn w ks) : env r = .ready w ks := by
+  unfold loadLogic at h
+  split at h
+  · cases h
+  · split at h
+    · cases h
+    · split at h
+      · cases h
+      · cases he : env r with
+        | missing => rw [he] at h; cases h
+        | unhealthy => rw [he] at h; cases h
+        | ready w' ks' => rw [he] at h; cases h; rfl
+
+/-- whatever the cases (duplicate `case` values, several defaults, any reference) and whatever the cache holds,
+    every key the switch collects was read off a case whose function is cached as READY: a case whose function is
+    missing or unhealthy — shadowed by a later entry or not — contributes nothing and nothing is read off its outcome -/
+theorem switch_keys_only_from_ready_cases {env : Env} : ∀ (cases : List CaseSpec) (acc acc' : SwitchAcc),
+    switchLoop env cases acc = some acc' →
+    ∀ k ∈ acc'.keys, k ∈ acc.keys ∨
+      ∃ c ∈ cases, ∃ w ks, env c.ref = .ready w ks ∧ (k ∈ ks ∨ ∃ k' ∈ ks, k = "inputs." ++ k')
+  | [], acc, acc', h => by
+    simp only [switchLoop, Option.some.injEq] at h; subst h
+    exact fun k hk => Or.inl hk
+  | c :: rest, acc, acc', h => by
+    unfold switchLoop at h
+    split at h
+    · cases h
+    · simp only at h
+      intro k hk
+      rcases switch_keys_only_from_ready_cases rest _ acc' h k hk with hin | ⟨c', hc', w, ks, he, hk'⟩
+      · cases hl : (loadLogic env c.ref).2 with
+        | err e => rw [hl] at hin; exact Or.inl hin
+        | switch ks => rw [hl] at hin; exact Or.inl hin
+        | fn w ks =>
+          rw [hl] at hin
+          have he := loadLogic_fn hl
+          cases w with
+          | true =>
+            rcases List.mem_append.1 hin with h1 | h2
+            · exact Or.inl h1
+            · obtain ⟨k', hk', rfl⟩ := List.mem_map.1 h2
+              exact Or.inr ⟨c, List.mem_cons_self, true, ks, he, Or.inr ⟨k', hk', rfl⟩⟩
+          | false =>
+            rcases List.mem_append.1 hin with h1 | h2
+            · exact Or.inl h1
+            · exact Or.inr ⟨c, List.mem_cons_self, false, ks, he, Or.inl h2⟩
+      · exact Or.inr ⟨c', List.mem_cons_of_mem _ hc', w, ks, he, hk'⟩
+
+/-- `_load_logic_switch` never raises: for every list of cases and every cache state it answers a LogicSwitch or an
+    error outcome, provided the reference analysis of `switchOn` does not raise (which `extract_total_current` gives
+    for every parse tree of the grammar) -/
+theorem switch_load_never_raises (env : Env) (sw : SwitchSpec)
+    (hx : ∀ t, sw.switchOn = .ast t → ∃ ks, extract t = .ok ks) :
+    ∃ r, loadLogicSwitch env sw = .ok r := by
+  unfold loadLogicSwitch
+  cases hs : sw.switchOn with
+  | absent => exact ⟨_, rfl⟩
+  | parseFail => exact ⟨_, rfl⟩
+  | ast t =>
+    obtain ⟨ks, hk⟩ := hx t hs
+    simp only [hk]
+    split
+    · exact ⟨_, rfl⟩
+    · split
+      · exact ⟨_, rfl⟩
+      · split
+        · exact ⟨_, rfl⟩
+        · split <;> exact ⟨_, rfl⟩
+
+/-- the seeded C20-x2 situation: two entries with the same `case`, the earlier one's function not cached, the later
+    one's ready and default — the switch is prepared (the shadowed Retry is not in `logic_map`), with the keys of the
+    ready function only -/
+def shadowEnv : Env := fun r => if r.name = "fn-b" then .ready false ["inputs.x"] else .missing
+
+theorem shadowed_unready_case_prepares :
+    (switchLoop shadowEnv [⟨"std", false, ⟨"ValueFunction", "fn-a"⟩⟩, ⟨"std", true, ⟨"ValueFunction", "fn-b"⟩⟩]
+        ⟨[], [], none, ["parent.spec.flavour"]⟩).map
+      (fun acc => (acc.keys, worstErr (acc.logicMap.map (·.2)), acc.logicMap.length, acc.resources))
+      = some (["parent.spec.flavour", "inputs.x"], none, 1,
+              [("ValueFunction", "fn-a"), ("ValueFunction", "fn-b")]) := by decide
+
 /-! ## non-vacuity -/
 
 open Cel in
